@@ -42,7 +42,7 @@ def ghist(h):
             % (B(h["own"]), h["gov_chain"], B(h["gov_addr"]), kc, sg, rc, ops, ex))
 
 def weight(h):
-    return sum(len(json.dumps(o)) for o in h["ops"]) // 2 + 60 * len(h["rec"]) + sum(len(a) for a, _ in h["keccak"]) // 2
+    return sum(len(json.dumps(o)) for o in h["ops"]) // 2 + 60 * len(h["rec"]) + sum(len(a) + 600 for a, _ in h["keccak"]) // 2
 
 def norm(h):
     for k in ("ops", "steps", "mon", "keccak", "sign", "rec"):
@@ -86,10 +86,12 @@ def _compare_with_model(ctx, rows, name):
     bins = [sorted(b) for b in bins if b]
     texts = []
     for b in bins:
-        texts.append(HDR + "Definition cases : list hist := %s.\nDefinition M := Eval vm_compute in map check_hist cases.\nPrint M.\n"
+        # check_hist_k: the recorded keccak table of every history is first validated against the Gallina Keccak-256 (lib/Keccak.v), -2 if not
+        texts.append(HDR + "Definition cases : list hist := %s.\nDefinition M := Eval vm_compute in map check_hist_k cases.\nPrint M.\n"
                      % core.glist(ghist(rows[i]) for i in b))
     res = core.coq_eval_many(ctx, name, texts, timeout=1500)
     bad = []
+    nkbad = 0
     for b, (ok, o) in zip(bins, res):
         m = core.parse_print(o, "M")
         if not ok or m is None:
@@ -102,7 +104,28 @@ def _compare_with_model(ctx, rows, name):
         for i, v in zip(b, vals):
             if v >= 0:
                 bad.append((i, v))
+            elif v == -2:
+                nkbad += 1
+                if nkbad <= 2:
+                    ctx.problem("correspondence", "a recorded Keccak256 result is not the value of the Gallina keccak256 (lib/Keccak.v)",
+                                "history %s: %s" % (rows[i]["id"], keccak_table_diff(rows[i])), concrete=False,
+                                replay={"history": rows[i]["id"], "keccak_table": rows[i]["keccak"][:50]})
+    ctx.cov["keccak_table_pairs_validated_in_coq"] = sum(len(h["keccak"]) for h in rows)
+    ctx.cov["keccak_table_histories_rejected"] = nkbad
     return sorted(bad)
+
+
+def keccak_table_diff(h):
+    """diagnostics only (python): which recorded pair differs from Keccak-256"""
+    try:
+        import hashlib  # noqa: F401
+        from Crypto.Hash import keccak as K  # optional
+        for a, b in h["keccak"]:
+            if K.new(digest_bits=256, data=bytes.fromhex(a)).hexdigest() != b:
+                return "input %s... recorded %s" % (a[:40], b)
+    except Exception:
+        pass
+    return "%d recorded pairs" % len(h["keccak"])
 
 def describe(h, step=None):
     ops = h["ops"] if step is None else h["ops"][:step + 1]
@@ -254,7 +277,8 @@ def pipeline(ctx, pid, extra_classes=()):
 
 
 COMMON_ASSUMPTIONS = [
-    "ECDSA recovery, Keccak and the node's signer are oracles: theorems hold for every recover/keccak/sign function; the correspondence run uses the table of go-ethereum results recorded by the harness",
+    "ECDSA recovery, Keccak and the node's signer are oracles: theorems hold for every recover/keccak/sign function; the correspondence run uses the table of go-ethereum results recorded by the harness"
+    " (every recorded Keccak256 pair is re-computed by the executable Gallina Keccak-256 of lib/Keccak.v inside the same vm_compute: check_hist_k)",
     "one atomic step per handler (the processor is a single goroutine); the own-signature fast-path goroutine is the explicit loopback queue whose delivery order the history chooses",
     "guardian sets learned from chain have pairwise distinct keys and at most 256 of them (op_wf); the wire format cannot express more",
     "time: the cleanup clock is virtual (instants rewritten to now-age in whole seconds right before the call); thresholds decided at +-1 s",
